@@ -191,6 +191,8 @@ def match_known(check_id: str, violation: Violation, case: dict, known: list[dic
             continue
         if m.get("kind") not in (None, violation.kind):
             continue
+        if m.get("kinds") is not None and violation.kind not in m["kinds"]:
+            continue
         where = m.get("where", {})
         if all(violation.details.get(k) == v for k, v in where.items()):
             return entry
